@@ -96,3 +96,107 @@ VERIF_OBLIGATION(obl_c10_stack_laws)
             verif_assert(t[i] == content[i] && s[i] == content[i], "deeper entries unchanged by push/and/or/not");
     verif_assert(s.pop() == b && s.pop() == a && s.size() == d, "pop returns pushes in LIFO order");
 }
+
+//---------------------------------------------------------------------------//
+// C10.2: InfixEvaluator on arbitrary well-formed explicit-infix strings vs recursive reference semantics.
+// Grammar (what the infix builder emits): chain := item (OP item)* with ONE operator kind per parenthesis level;
+// item := face | '~' face | true | '(' chain ')'.
+#include "orange/univ/detail/InfixEvaluator.hh"
+
+#ifndef VERIF_LI
+#    define VERIF_LI 9
+#endif
+constexpr int LI = VERIF_LI;
+constexpr int MAXD = 3;
+
+VERIF_OBLIGATION(obl_c10_infix)
+{
+    logic_int prog[LI];
+    bool senses[F];
+    for (int i = 0; i < F; ++i)
+        senses[i] = verif_nondet_bool("sense");
+    unsigned n = verif_nondet_u32("len");
+    verif_assume(n >= 1 && n <= (unsigned)LI);
+    // reference evaluation + well-formedness in one pass
+    bool acc[MAXD + 1];
+    int op[MAXD + 1];  // 0 none yet, 1 and, 2 or
+    bool first[MAXD + 1];
+    for (int d = 0; d <= MAXD; ++d)
+    {
+        acc[d] = false;
+        op[d] = 0;
+        first[d] = true;
+    }
+    int depth = 0;
+    bool expect_operand = true, pending_not = false, ok = true;
+    for (int i = 0; i < LI; ++i)
+    {
+        unsigned kind = verif_nondet_u32("tok");
+        verif_assume(kind < F + 6);
+        logic_int t = kind < (unsigned)F ? logic_int(kind)
+                      : kind == F       ? logic_int(logic::ltrue)
+                      : kind == F + 1   ? logic_int(logic::lor)
+                      : kind == F + 2   ? logic_int(logic::land)
+                      : kind == F + 3   ? logic_int(logic::lnot)
+                      : kind == F + 4   ? logic_int(logic::lopen)
+                                        : logic_int(logic::lclose);
+        prog[i] = t;
+        if ((unsigned)i >= n || !ok)
+            continue;
+        bool have_val = false, val = false;
+        if (kind <= (unsigned)F)
+        {
+            ok = ok && expect_operand && !(kind == F && pending_not);
+            val = kind < (unsigned)F ? (senses[kind] != pending_not) : true;
+            pending_not = false;
+            have_val = true;
+        }
+        else if (kind == F + 3)
+        {
+            ok = ok && expect_operand && !pending_not;
+            pending_not = true;
+        }
+        else if (kind == F + 4)
+        {
+            ok = ok && expect_operand && !pending_not && depth < MAXD;
+            if (depth < MAXD)
+            {
+                ++depth;
+                op[depth] = 0;
+                first[depth] = true;
+                acc[depth] = false;
+            }
+        }
+        else if (kind == F + 5)
+        {
+            ok = ok && !expect_operand && depth > 0;
+            if (depth > 0)
+            {
+                val = acc[depth];
+                --depth;
+                have_val = true;
+            }
+        }
+        else
+        {
+            int o = (kind == F + 2) ? 1 : 2;
+            ok = ok && !expect_operand && (op[depth] == 0 || op[depth] == o);
+            op[depth] = o;
+            expect_operand = true;
+        }
+        if (have_val)
+        {
+            if (first[depth])
+                acc[depth] = val;
+            else
+                acc[depth] = (op[depth] == 1) ? (acc[depth] && val) : (acc[depth] || val);
+            first[depth] = false;
+            expect_operand = false;
+        }
+    }
+    verif_assume(ok && depth == 0 && !expect_operand && !pending_not);
+    InfixEvaluator eval(Span<logic_int const>(prog, n));
+    bool r = eval([&senses](FaceId id) { return senses[id.unchecked_get()]; });
+    verif_reach("infix");
+    verif_assert(r == acc[0], "InfixEvaluator == reference semantics of the explicit infix string");
+}
